@@ -443,6 +443,37 @@ Section Model.
     end.
 End Model.
 
+(* ---------------------------------------------------------------------- the 1-D variants: geometry_util.*_1d_*,
+   grid_1d_util.grid_1d_slim_via_mask_from / grid_1d_slim_via_shape_slim_from (Grid1D.from_mask, Grid1D.uniform,
+   Mask1D.derive_grid.all_false), Geometry1D.extent *)
+Section OneD.
+  Context {O : NumOps}.
+  Notation T := (T O).
+  Definition unmasked_1d (r : list bool) : list Z := map snd (row_unmasked r 0 0).
+  Definition len1 (r : list bool) : Z := Z.of_nat (length r).
+  (* central_scaled_coordinate_1d_from: (n - 1) / 2 - origin / pixel_scale *)
+  Definition central_scaled_1d (n : Z) (ps o : T) : T := sub O (div O (ofZ O (n - 1)) two) (div O o ps).
+  (* grid_1d_slim_via_mask_from: (x - centres_scaled) * pixel_scale for the unmasked x *)
+  Definition grid_1d_via_mask (r : list bool) (ps o : T) : list T :=
+    let cs := central_scaled_1d (len1 r) ps o in map (fun x => mul O (sub O (ofZ O x) cs) ps) (unmasked_1d r).
+  Definition grid_1d_all_false (r : list bool) (ps o : T) : list T := grid_1d_via_mask (repeat false (length r)) ps o.
+  (* Geometry1D.extent = (-(ps * n) / 2 + o, (ps * n) / 2 + o) *)
+  Definition extent_1d (n : Z) (ps o : T) : T * T :=
+    let s := mul O ps (ofZ O n) in (add O (opp O (div O s two)) o, add O (div O s two) o).
+  (* pixel_coordinates_1d_from: int((x - o) / ps + (n - 1) / 2 + 0.5) *)
+  Definition pixel_coordinates_1d (n : Z) (ps o x : T) : Z :=
+    trunc (add O (add O (div O (sub O x o) ps) (div O (ofZ O (n - 1)) two)) half).
+  (* scaled_coordinates_1d_from: ps * (q - centres_scaled) *)
+  Definition scaled_coordinates_1d (n : Z) (ps o q : T) : T := mul O ps (sub O q (central_scaled_1d n ps o)).
+  (* origin-free closed forms *)
+  Definition rel_grid_1d (r : list bool) (ps : T) : list T :=
+    map (fun x => mul O (sub O (ofZ O x) (div O (ofZ O (len1 r - 1)) two)) ps) (unmasked_1d r).
+  Definition rel_extent_1d (n : Z) (ps : T) : T * T := let s := mul O ps (ofZ O n) in (opp O (div O s two), div O s two).
+  Definition rel_pixel_1d (n : Z) (ps x : T) : Z := trunc (add O (add O (div O x ps) (div O (ofZ O (n - 1)) two)) half).
+  Definition rel_scaled_1d (n : Z) (ps q : T) : T := mul O ps (sub O q (div O (ofZ O (n - 1)) two)).
+  Definition shift1 (d : T) (l : list T) : list T := map (fun v => add O v d) l.
+End OneD.
+
 (* ---------------------------------------------------------------------- grid_2d_util.relocated_grid_via_jit_from and
    BorderRelocator.relocated_grid_from (C18 owns the relocation law; here: its behaviour under a common translation) *)
 Section Reloc.
@@ -623,9 +654,14 @@ Inductive obs :=
 | KDataset (op : dop) (data noise arg : QM) (out : geom * geom)
 | KReloc (idx : list nat) (g : list qpt) (mesh : option (list qpt)) (tol : qpt) (out : list qpt)
     (* BorderRelocator.relocated_grid_from (mesh = None) / relocated_mesh_grid_from (Some mesh); tolerance [tol] *)
-| KRadialA (M : QM) (c cssn : qpt) (shape_slim : Z) (remove_centre : bool) (tol : qpt) (out : list qpt).
+| KRadialA (M : QM) (c cssn : qpt) (shape_slim : Z) (remove_centre : bool) (tol : qpt) (out : list qpt)
+| K1D (axis : bool) (r : list bool) (ps o : Q) (out_grid out_all : list Q) (out_ext : Q * Q) (pts : list Q) (out_pix : list Z)
+      (pix : list Q) (out_scaled : list Q).
+    (* the 1-D variants on the frame (len r, ps, o): Grid1D.from_mask, Mask1D.derive_grid.all_false, Geometry1D.extent,
+       pixel_coordinates_1d_from of [pts], scaled_coordinates_1d_from of [pix]; [axis]: which component of d translates it *)
     (* Grid2D.grid_2d_radial_projected_from at any angle; [cssn] = (cos, sin) of the common theta as the doubles numpy returned *)
 
+Definition ql_eqb := list_eqb Qeq_bool.
 Definition agree1 (k : obs) : bool :=
   match k with
   | KGrid op M out => res_eqb qg_eqb (gop_model op M) out
@@ -646,6 +682,11 @@ Definition agree1 (k : obs) : bool :=
   | KReloc idx g mesh tol out =>
       list_eqb (qpt_close tol) (match mesh with None => @relocated_grid_from QOps idx g | Some mg => @relocated_mesh_grid_from QOps idx g mg end) out
   | KRadialA M c cssn ss rm tol out => list_eqb (qpt_close tol) (radial_projected_from_a cssn M c ss rm) out
+  | K1D ax r ps o og oa oe pts opx pix osc =>
+      ql_eqb (@grid_1d_via_mask QOps r ps o) og && ql_eqb (@grid_1d_all_false QOps r ps o) oa
+      && (let e := @extent_1d QOps (len1 r) ps o in Qeq_bool (fst e) (fst oe) && Qeq_bool (snd e) (snd oe))
+      && list_eqb Z.eqb (map (@pixel_coordinates_1d QOps (len1 r) ps o) pts) opx
+      && ql_eqb (map (@scaled_coordinates_1d QOps (len1 r) ps o) pix) osc
   end.
 
 (* the origin-free closed forms accept the implementation's output (single origin) *)
@@ -668,6 +709,11 @@ Definition rel_ok1 (k : obs) : bool :=
   | KReloc idx g mesh tol out => true
   | KRadialA M c cssn ss rm tol out =>
       list_eqb (qpt_close tol) (shift (morg M) (rel_radial_a cssn (rows (mk M)) (cols (mk M)) (mps M) (psub c (morg M)) ss rm)) out
+  | K1D ax r ps o og oa oe pts opx pix osc =>
+      ql_eqb (@shift1 QOps o (@rel_grid_1d QOps r ps)) og && ql_eqb (@shift1 QOps o (@rel_grid_1d QOps (repeat false (length r)) ps)) oa
+      && (let e := @rel_extent_1d QOps (len1 r) ps in Qeq_bool (fst e + o) (fst oe) && Qeq_bool (snd e + o) (snd oe))
+      && list_eqb Z.eqb (map (fun x => @rel_pixel_1d QOps (len1 r) ps (x - o)%Q) pts) opx
+      && ql_eqb (@shift1 QOps o (map (@rel_scaled_1d QOps (len1 r) ps) pix)) osc
   end.
 
 
@@ -738,6 +784,12 @@ Definition spec_ok (k : case) : bool :=
   | KRadialA M c cssn ss rm tol out, KRadialA M' c' cssn' ss' rm' tol' out' =>
       M_translated d M M' && qpt_eqb (@padd QOps c d) c' && qpt_eqb cssn cssn' && (ss =? ss')%Z && Bool.eqb rm rm' && qpt_eqb tol tol'
       && list_eqb (qpt_close (tol2 tol)) (@shift QOps d out) out'
+  | K1D ax r ps o og oa oe pts opx pix osc, K1D ax' r' ps' o' og' oa' oe' pts' opx' pix' osc' =>
+      let d1 := if ax then snd d else fst d in
+      Bool.eqb ax ax' && list_eqb Bool.eqb r r' && Qeq_bool ps ps' && Qeq_bool (o + d1) o'
+      && ql_eqb (@shift1 QOps d1 og) og' && ql_eqb (@shift1 QOps d1 oa) oa'
+      && Qeq_bool (fst oe + d1) (fst oe') && Qeq_bool (snd oe + d1) (snd oe')
+      && ql_eqb (@shift1 QOps d1 pts) pts' && list_eqb Z.eqb opx opx' && ql_eqb pix pix' && ql_eqb (@shift1 QOps d1 osc) osc'
   | _, _ => false
   end.
 
